@@ -194,6 +194,7 @@ func c09(r *ev.Reporter, _ []string) {
 	}
 	nk := c09Kauri(r)
 	bounds = append(bounds, nk...)
+	bounds = append(bounds, c09Async(r)...)
 	r.Extra["bounds_completed"] = bounds
 	r.Traces = r.Evaluations
 	r.Sample("n=4: vote(2); vote(4) carrying the signatures of 4 and 3; propose(B); vote(3) -> QC must form from {1,2,3}")
